@@ -1,4 +1,5 @@
 import SlipVerif.Theorems.C03
+import SlipVerif.Lemmas.PrinterCode
 /- C03, obligations over the regenerated tables (Gen/PrinterTables.lean, extracted from printer.go,
    code.go and character.go on every run): the printer's `needPipeMap` is consistent with the
    reader's byte tables, and the printed names of the low characters read back. A failure to build
@@ -16,6 +17,7 @@ theorem tables_ok : TablesOK where
   letters_free := by decide +kernel
   term_token := by decide +kernel
   number_token := by decide +kernel
+  plus_token := by decide +kernel
   number_start := by decide +kernel
   char_token := by decide +kernel
   special_ascii := by decide +kernel
@@ -24,7 +26,7 @@ theorem tables_ok : TablesOK where
 /-- the round-trip theorem for the tables as they are in the repository now -/
 theorem print_read_roundtrip_now (cfg : PCfg) (hC : CfgOK cfg) (x : Obj) (hwf : WF x) :
     ∃ y, readAll 10 (printFlat cfg x) = .ok y ∧ objEq x y = true :=
-  SlipVerif.Theorems.C03.print_read_roundtrip_partial tables_ok cfg hC x hwf
+  SlipVerif.Theorems.C03.print_read_roundtrip tables_ok cfg hC x hwf
 
 /-- the pretty text reads back to the same object as the flat text, for the tables as they are now -/
 theorem pretty_read_roundtrip_now (cfg : PCfg) (hC : CfgOK cfg) (margin : Nat) (x : Obj) (hwf : WF x) :
@@ -43,5 +45,250 @@ theorem symbol_roundtrip_now (cfg : PCfg) (name : List Char)
     (rest : List Char) (hrest : termOrEnd rest = true) (fuel : Nat) :
     read1 10 (fuel + 1) (printSym cfg name ++ rest) = .ok (.sym (caseName cfg.case name), rest) :=
   (SlipVerif.Theorems.C03.symbol_roundtrip tables_ok cfg name hnt hnn rest hrest fuel).1
+
+/-! ## the printer's code, translated from the source on this run (`Gen/PrinterCode.lean`), refines the model -/
+
+open SlipVerif.Gen.PrinterCode in
+/-- `func (obj Fixnum) Readably` as it is written now prints, for every configuration and integer,
+    the text of the model's `printInt` (prefixes `#b #o #x #NNr`, the trailing point of base 10) -/
+theorem fixnum_code_refines : IntCodeOK fixnumReadably := by
+  intro cfg n
+  unfold fixnumReadably printInt renderNum
+  by_cases hr : cfg.radix = true
+  · by_cases h2 : cfg.base = 2
+    · simp [hr, h2, numPiece, ofCodes, radixPrefix]
+    · by_cases h8 : cfg.base = 8
+      · simp [hr, h8, numPiece, ofCodes, radixPrefix]
+      · by_cases h16 : cfg.base = 16
+        · simp [hr, h16, numPiece, ofCodes, radixPrefix]
+        · by_cases h10 : cfg.base = 10
+          · simp [hr, h10, numPiece, ofCodes]
+          · simp [hr, h2, h8, h16, h10, numPiece, ofCodes, radixPrefix]
+  · simp [hr, numPiece]
+
+open SlipVerif.Gen.PrinterCode in
+/-- `func (obj *Bignum) Readably` likewise -/
+theorem bignum_code_refines : IntCodeOK bignumReadably := by
+  intro cfg n
+  unfold bignumReadably printInt renderNum
+  by_cases hr : cfg.radix = true
+  · by_cases h2 : cfg.base = 2
+    · simp [hr, h2, numPiece, ofCodes, radixPrefix]
+    · by_cases h8 : cfg.base = 8
+      · simp [hr, h8, numPiece, ofCodes, radixPrefix]
+      · by_cases h16 : cfg.base = 16
+        · simp [hr, h16, numPiece, ofCodes, radixPrefix]
+        · by_cases h10 : cfg.base = 10
+          · simp [hr, h10, numPiece, ofCodes]
+          · simp [hr, h2, h8, h16, h10, numPiece, ofCodes, radixPrefix]
+  · simp [hr, numPiece]
+
+open SlipVerif.Gen.PrinterCode in
+/-- `func (obj *Ratio) Readably`: an integral ratio goes through `(*Bignum).Readably`, any other is
+    prefix, numerator, `/`, denominator — the model's `printRatio` (base 10 with radix: `#10r`) -/
+theorem ratio_code_refines : RatioCodeOK ratioReadably bignumReadably := by
+  intro cfg num den
+  unfold ratioReadably printRatio
+  by_cases hd : den = 1
+  · subst hd
+    have := bignum_code_refines cfg num
+    simp only [renderNum] at this ⊢
+    simp [numPiece, this]
+  · have hd' : (den == 1) = false := by simpa using hd
+    unfold renderNum
+    by_cases hr : cfg.radix = true
+    · by_cases h2 : cfg.base = 2
+      · simp [hd, hd', hr, h2, numPiece, ofCodes, radixPrefix]
+      · by_cases h8 : cfg.base = 8
+        · simp [hd, hd', hr, h8, numPiece, ofCodes, radixPrefix]
+        · by_cases h16 : cfg.base = 16
+          · simp [hd, hd', hr, h16, numPiece, ofCodes, radixPrefix]
+          · simp [hd, hd', hr, h2, h8, h16, numPiece, ofCodes, radixPrefix]
+    · simp [hd, hd', hr, numPiece, ofCodes]
+
+open SlipVerif.Gen.PrinterCode in
+/-- `appendBarred`: every byte value is written as the model's `barEsc` writes it, between two bars -/
+theorem barred_code_refines : barredByteOK barredByte = true ∧ barredOpen = [.lit [124]] ∧ barredClose = [.lit [124]] := by
+  refine ⟨by decide +kernel, rfl, rfl⟩
+
+open SlipVerif.Gen.PrinterCode in
+/-- `func (obj Symbol) Readably`: the byte loop over `needPipeMap` (with its exception for a leading
+    `&`) and the two `numberToken` tests choose bars exactly when the model's `needsBar` does, and the
+    three outcomes are the model's `printSym` -/
+theorem symbol_code_refines : SymbolCodeOK symbolReadably := by
+  intro cfg name
+  unfold symbolReadably printSym
+  by_cases hn : name = []
+  · subst hn
+    cases cfg.case <;> simp [symPiece, ofCodes, needsBar, caseName]
+  · have hb : ¬ (name.flatMap utf8Bytes = []) := by rw [flatMap_utf8_nil]; exact hn
+    simp only [hb, if_false]
+    have hany := anyIdx_name name
+    have hcond : ∀ (i c : Nat), decide (pipeAtModel c = 120 ∧ (c ≠ 38 ∨ 0 < i)) =
+        decide ((pipeAtModel c == 120) = true ∧ (c ≠ 38 ∨ 0 < i)) := by
+      intro i c; simp
+    simp only [hcond, hany]
+    unfold needsBar
+    cases name with
+    | nil => exact absurd rfl hn
+    | cons c r =>
+      simp only
+      by_cases h1 : ((c != '&' && needPipeChar c) || r.any needPipeChar) = true
+      · simp [h1, symPiece]
+      · have h1' : ((c != '&' && needPipeChar c) || r.any needPipeChar) = false := by simpa using h1
+        simp only [h1', Bool.false_eq_true, if_false, Bool.false_or]
+        by_cases h2 : numberTok 10 (c :: r) = true
+        · simp [h2, symPiece]
+        · have h2' : numberTok 10 (c :: r) = false := by simpa using h2
+          by_cases h3 : cfg.base = 10
+          · simp [h2', h3, symPiece]
+          · by_cases h4 : numberTok cfg.base (c :: r) = true
+            · simp [h2', h3, h4, symPiece]
+            · have h4' : numberTok cfg.base (c :: r) = false := by simpa using h4
+              simp [h2', h3, h4', symPiece]
+
+open SlipVerif.Gen.PrinterCode in
+/-- `func (obj String) Readably` -/
+theorem string_code_refines : StringCodeOK stringReadably := by
+  intro cfg s
+  unfold stringReadably printStr
+  by_cases hr : cfg.readably = true
+  · simp [hr, strPiece]
+  · simp [hr, strPiece, ofCodes]
+
+open SlipVerif.Gen.PrinterCode in
+/-- `func (obj Character) Append` (what `Readably` calls with `*print-escape*`): named characters by
+    their table entry, codes below 32 as `#\u00XX` through `hexChars`, any other as itself -/
+theorem character_code_refines : CharCodeOK characterAppend ∧ characterReadably true = [.selfAppend] := by
+  refine ⟨?_, rfl⟩
+  intro c
+  unfold characterAppend printChr
+  cases hs : specialText c with
+  | some text => simp [chrPiece, hs]
+  | none =>
+    by_cases h32 : c.toNat < 32
+    · have hlow : charLowOK characterAppend = true := by decide +kernel
+      unfold charLowOK at hlow
+      rw [List.all_eq_true] at hlow
+      have := hlow c.toNat (List.mem_range.mpr h32)
+      rw [Char.ofNat_toNat] at this
+      simp only [hs, Option.isSome_none, beq_iff_eq] at this
+      unfold characterAppend printChr at this
+      simp only [hs, h32, if_true] at this
+      simpa [h32] using this
+    · simp [h32, chrPiece, ofCodes]
+
+open SlipVerif.Gen.PrinterCode in
+/-- `Printer.Append`, `case *Array`: the rank in decimal between `#` and `A` and then the contents as
+    a list (with `*print-array*`), the `#<(ARRAY T (dims))>` form otherwise -/
+theorem array_code_refines : ArrayCodeOK appendArray := by
+  intro cfg rank contents hr hc
+  have h0 : rank ≠ 0 := by omega
+  have h1 : rank ≠ 1 := by omega
+  by_cases ha : cfg.array = true
+  · have hcode : appendArray true rank = [.lit [35], .dig .rank 10, .lit [65], .again] := by
+      unfold appendArray; simp [h0, h1]
+    rw [ha, hcode]
+    unfold printArr
+    simp only [renderCont, List.flatMap_cons, List.flatMap_nil, contPiece, List.append_nil, ha, if_true]
+    cases contents with
+    | nil => simp [printFlat, ofCodes]
+    | cons a d => simp [printFlat, ofCodes]
+    | _ => simp [isNilOrCons] at hc
+  · have ha' : cfg.array = false := by simpa using ha
+    have hcode : appendArray false rank = [.lit (codesOf "#<(ARRAY T ("), .joinDims [32], .lit (codesOf "))>")] := by
+      unfold appendArray; simp [h0]; decide
+    rw [ha', hcode]
+    unfold printArr
+    simp only [renderCont, List.flatMap_cons, List.flatMap_nil, contPiece, List.append_nil, ha', h0, if_false, Bool.false_eq_true]
+    have e1 : ofCodes (codesOf "#<(ARRAY T (") = arrOpaque := by decide
+    have e2 : ofCodes (codesOf "))>") = [')', ')', '>'] := by decide
+    have e3 : ofCodes [32] = [' '] := by decide
+    rw [e1, e2, e3, joinWith_space, List.append_assoc]
+
+open SlipVerif.Gen.PrinterCode in
+/-- `Printer.Append`, `case *Vector` -/
+theorem vector_code_refines : VectorCodeOK appendVector := by
+  intro cfg elems hc
+  by_cases ha : cfg.array = true
+  · cases elems with
+    | nil =>
+      have hcode : appendVector true false = [.lit [35, 40, 41]] := by unfold appendVector; simp
+      simp only [ha, bne_self_eq_false, hcode, renderCont, printVec, List.flatMap_cons, List.flatMap_nil, contPiece, if_true]
+      decide
+    | cons a d =>
+      have hcode : appendVector true true = [.lit [35], .again] := by unfold appendVector; simp
+      have hne : (Obj.cons a d != Obj.nil) = true := by simp
+      simp only [ha, hne, hcode, renderCont, printVec, List.flatMap_cons, List.flatMap_nil, contPiece, if_true, printFlat]
+      simp [ofCodes]
+    | _ => simp [isNilOrCons] at hc
+  · have ha' : cfg.array = false := by simpa using ha
+    have hcode : ∀ ne, appendVector false ne = [.lit (codesOf "#<(VECTOR "), .dig .len 0, .lit (codesOf ")>")] := by
+      intro ne; unfold appendVector; simp; decide
+    simp only [ha', hcode, renderCont, List.flatMap_cons, List.flatMap_nil, contPiece, List.append_nil]
+    have e1 : ofCodes (codesOf "#<(VECTOR ") = vecOpaque := by decide
+    have e2 : ofCodes (codesOf ")>") = [')', '>'] := by decide
+    unfold printVec
+    simp only [ha', Bool.false_eq_true, if_false]
+    rw [e1, e2, List.append_assoc]
+
+open SlipVerif.Gen.PrinterCode in
+/-- `Printer.Append`, `case Tail` and the flat loop of `case List`: the model's dotted tail -/
+theorem tail_code_refines : TailCodeOK appendTail appendList := by
+  refine ⟨rfl, ?_⟩
+  intro cfg d hd
+  have hcode : appendTail = [.lit [46, 32], .again] := rfl
+  have e1 : ofCodes [46, 32] = ['.', ' '] := by decide
+  simp only [hcode, renderCont, List.flatMap_cons, List.flatMap_nil, contPiece, e1, List.append_nil]
+  cases d <;> simp [isAtomTail] at hd <;> simp [printTail, printFlat]
+
+open SlipVerif.Gen.PrinterCode in
+/-- `Printer.Append`, `case List` (flat) and `case nil` -/
+theorem list_code_refines : ListCodeOK appendList appendNil := by
+  have e40 : ofCodes [40] = ['('] := by decide
+  have e41 : ofCodes [41] = [')'] := by decide
+  have e32 : ofCodes [32] = [' '] := by decide
+  have enil : ofCodes [110, 105, 108] = ['n', 'i', 'l'] := by decide
+  refine ⟨?_, ?_, ?_⟩
+  · intro cfg a d hd
+    have hcode : appendList false false false = [.lit [40], .joinElems [32] [46, 46, 46], .lit [41]] := rfl
+    simp only [hcode, renderCont, List.flatMap_cons, List.flatMap_nil, contPiece, e40, e41, e32, List.append_nil, List.map_cons]
+    rw [joinWith_cons_flatMap, printFlat, printTail_proper cfg d hd]
+    simp [List.flatMap_map]
+  · intro cfg p
+    have hcode : appendList true false p = [.cased [110, 105, 108]] := by unfold appendList; simp
+    simp only [hcode, renderCont, List.flatMap_cons, List.flatMap_nil, contPiece, enil, List.append_nil, printFlat]
+  · intro cfg
+    have hcode : appendNil = [.cased [110, 105, 108]] := rfl
+    simp only [hcode, renderCont, List.flatMap_cons, List.flatMap_nil, contPiece, enil, List.append_nil, printFlat]
+
+open SlipVerif.Gen.PrinterCode in
+/-- `caseName`: the switch over `p.Case` applies the operations of the model's `caseName` -/
+theorem case_code_refines : CaseCodeOK caseNameOps := by
+  intro cs name
+  cases cs <;> simp [applyCaseOps, caseNameOps, caseCode, applyCaseOp, caseName]
+  cases name.map lowerC <;> rfl
+
+open SlipVerif.Gen.PrinterCode in
+/-- the reader's number patterns are the ones the model's `isIntTok` / `isRatioTok` / `isDecimalTok` /
+    `isExpTok` transcribe: per base a class with exactly the digits of the base, the fixed decimal
+    and exponent patterns with the markers e s f d l -/
+theorem number_regexes_match :
+    rxTablesOK intRxs ratioRxs = true ∧
+    decimalRegex = codesOf "^[-+]?[0-9]+\\.?[0-9]*$" ∧
+    eFloatRegex = expRx 'e' ∧ shortFloatRegex = expRx 's' ∧ singleFloatRegex = expRx 'f' ∧
+    doubleFloatRegex = expRx 'd' ∧ longFloatRegex = expRx 'l' ∧
+    numberTokenBaseLo = 2 ∧ numberTokenBaseHi = 36 ∧ numberTokenLowers = true := by
+  refine ⟨by decide +kernel, by decide, by decide, by decide, by decide, by decide, by decide, rfl, rfl, rfl⟩
+
+open SlipVerif.Gen.PrinterCode in
+/-- `resolveToken` tries the integer pattern before the decimal one and knows all number patterns;
+    `numberToken` (the bars of a symbol) tries every pattern `resolveToken` does; each float format is
+    printed with a marker the reader maps back to the same format -/
+theorem reader_cases_match :
+    resolveOrderOK resolveOrder numberTokenRegexes = true ∧
+    floatMarkersOK singleFloatPrint doubleFloatPrint longFloatPrint readFloatCases = true ∧
+    defaultPrec = -1 ∧ defaultBase = 10 ∧ defaultEscape = true := by
+  refine ⟨by decide, by decide, rfl, rfl, rfl⟩
 
 end SlipVerif.Theorems.GenC03
